@@ -100,20 +100,56 @@ def exc_class(e: BaseException) -> str:
     return "internal:" + type(e).__name__
 
 
-def impl_terms(s, cfg, avail=None):
+def make_parser_hist(cfg, hist=None):
+    """a parser configured as `cfg`, optionally with a HISTORY: built under other feature flags, used, and
+    then reconfigured with set_feature_flags (on the parser or on its resolver), or used and then pickled /
+    deep-copied. Whatever the history, it must behave like a fresh parser configured as `cfg`."""
+    if not hist:
+        return make_parser(cfg)
+    import copy
+    import pickle
+
+    via = hist["via"]
+    p = make_parser(cfg if via in ("pickle", "deepcopy") else dict(cfg, **hist["start"]))
+    for warm in hist["warmup"]:
+        try:
+            p.get_terms(warm)
+        except Exception:
+            pass
+    flags = {k for k in ("twosided", "multipart", "multistage") if cfg[k]}
+    if via == "pickle":
+        p = pickle.loads(pickle.dumps(p))
+    elif via == "deepcopy":
+        p = copy.deepcopy(p)
+    elif via == "parser":
+        p.set_feature_flags(flags)
+    else:
+        p.operator_resolver.set_feature_flags(flags)
+    return p
+
+
+def gen_hist(rng):
+    return dict(
+        via=rng.choice(["parser", "resolver", "pickle", "deepcopy"]),
+        start={k: rng.random() < 0.5 for k in ("twosided", "multipart", "multistage")},
+        warmup=rng.sample(["a + b", "y ~ x | z", "y ~ [x ~ z]", "(", "a | b"], rng.randint(0, 2)),
+    )
+
+
+def impl_terms(s, cfg, avail=None, hist=None):
     ctx = {"__formulaic_variables_available__": avail} if avail is not None else {}
     try:
-        return {"terms": canon_val(make_parser(cfg).get_terms(s, context=ctx))}
+        return {"terms": canon_val(make_parser_hist(cfg, hist).get_terms(s, context=ctx))}
     except Exception as e:
         return {"error": exc_class(e)}
 
 
-def impl_formula(s, cfg, avail=None):
+def impl_formula(s, cfg, avail=None, hist=None):
     from formulaic import Formula
 
     ctx = {"__formulaic_variables_available__": avail} if avail is not None else {}
     try:
-        p = make_parser(cfg)
+        p = make_parser_hist(cfg, hist)
         return {"formula": canon_val(Formula(s, _parser=p, _nested_parser=p, _context=ctx))}
     except Exception as e:
         return {"error": exc_class(e)}
